@@ -4,7 +4,7 @@
 (* One state per descriptor (printed by the invariant Emit).                                  *)
 EXTENDS Integers, Sequences, TLC, Json
 
-CONSTANTS Ops, NPairs, Many, Starts, Counts, Bes, NChains, NSurg
+CONSTANTS Ops, NPairs, Many, Starts, Counts, Bes, NChains, NSurg, Blind
 
 \* thread counts: 0 = the single-threaded entry point; counts that do not divide / exceed the number of items, oversubscription
 ThreadLists == IF Many THEN << <<0, 1, 2, 3, 5, 7, 8, 16, 31, 32, 33, 64>> >> ELSE << <<0>> >>
@@ -19,6 +19,38 @@ W(op, be, p, th) == [kind |-> "word", op |-> op, be |-> be, ahi |-> Dict[p[1]][1
 ChainOps(k) == LET o == <<"add", "xor", "sub", "sll", "or", "srl", "and", "sra">> IN << o[(k % 8) + 1], o[((k * 3 + 1) % 8) + 1], o[((k * 5 + 2) % 8) + 1] >>
 
 VARIABLE c
+\* ---- oblivious data movement (Select.tla): the selector word is built around the addressed field value f at bit rsh
+\* (field entirely inside one 16-bit half); junk = 1 sets every bit outside the field
+Word(f, rsh, mask, junk) ==
+  LET inlo == rsh + mask <= 16
+      sh == IF inlo THEN rsh ELSE rsh - 16
+      half == f * 2 ^ sh + (IF junk = 1 THEN (2 ^ sh - 1) + (65536 - 2 ^ (sh + mask)) ELSE 0)
+  IN IF inlo THEN << (IF junk = 1 THEN 65535 ELSE 0), half >> ELSE << half, (IF junk = 1 THEN 65535 ELSE 0) >>
+Junks == IF Blind = 1 THEN {1} ELSE {0, 1}
+FieldVals(mask) == IF Blind = 1 THEN {0, 1, 2 ^ mask - 1, 5 % (2 ^ mask), (2 ^ mask) \div 2} ELSE 0..(2 ^ mask - 1)
+KeySets(mask) == LET U == 0..(2 ^ mask - 1) IN << U, {x \in U : x % 3 = 0}, {0}, {2 ^ mask - 1}, {}, {x \in U : x % 2 = 1} >>
+RECURSIVE SetSeq(_)
+SetSeq(S) == IF S = {} THEN <<>> ELSE LET x == CHOOSE y \in S : \A z \in S : y <= z IN <<x>> \o SetSeq(S \ {x})
+BD(op, be, w, f) == [x \in DOMAIN f \cup {"kind", "op", "be", "ahi", "alo"} |->
+                      IF x = "kind" THEN "blind" ELSE IF x = "op" THEN op ELSE IF x = "be" THEN be ELSE IF x = "ahi" THEN w[1] ELSE IF x = "alo" THEN w[2] ELSE f[x]]
+Rounds(size) == << <<size>>, <<1>>, <<size - 1, 0, size>>, <<(size + 1) \div 2, size>> >>
+BlindNext ==
+  \/ \E be \in Bes, rsh \in {0, 3, 27}, mask \in {0, 1, 3, 5}, junk \in {0, 1}, ks \in 1..6 : \E f \in FieldVals(mask) :
+       c' = BD("select", be, Word(f, rsh, mask, junk), [rsh |-> rsh, mask |-> mask, keys |-> SetSeq(KeySets(mask)[ks])])
+  \/ \E be \in Bes, rsh \in {0, 29}, mask \in 0..3, n \in (IF Blind = 1 THEN {1, 2, 3, 5, 8, 9} ELSE 1..9), junk \in Junks : \E f \in FieldVals(mask) :
+       c' = BD("retrieval", be, Word(f, rsh, mask, junk), [rsh |-> rsh, mask |-> mask, n |-> n])
+  \/ \E be \in Bes, rsh \in {0, 5}, size \in (IF Blind = 1 THEN {1, 2, 3, 5, 8} ELSE 1..9), r \in 1..4, junk \in Junks : \E f \in 0..(size - 1) :
+       /\ \A k \in 1..Len(Rounds(size)[r]) : Rounds(size)[r][k] >= 0
+       /\ c' = BD("retriever", be, Word(f, rsh, 4, junk), [rsh |-> rsh, size |-> size, rounds |-> Rounds(size)[r]])
+  \/ \E be \in Bes, rsh \in {0, 12}, size \in {2, 5, 8}, full \in {0, 1} : \E f \in 0..(IF full = 1 THEN size - 1 ELSE 0) :
+       c' = BD("retrieve", be, Word(f, rsh, 4, 0), [rsh |-> rsh, size |-> size, n |-> IF full = 1 THEN size ELSE 1])
+  \/ \E be \in Bes, rsh \in {0, 7, 31}, bit \in {0, 1}, junk \in {0, 1} :
+       c' = BD("cswap", be, Word(bit, rsh, 1, junk), [rsh |-> rsh])
+  \/ \E be \in Bes, op \in {"rotate", "rotate_assign"}, rsh \in (IF Blind = 1 THEN {0, 16} ELSE {0, 3, 16}), mask \in (IF Blind = 1 THEN {0, 4, 9} ELSE {0, 1, 4, 8, 9}),
+          lsh \in (IF Blind = 1 THEN {0, 3} ELSE {0, 1, 3}), pos \in (IF Blind = 1 THEN {3, 255} ELSE {0, 3, 255}), neg \in BOOLEAN, junk \in Junks :
+       \E f \in (IF Blind = 1 THEN {1, 2 ^ mask - 1} ELSE {0, 1, 2 ^ mask - 1, 5 % (2 ^ mask)}) :
+       c' = BD(op, be, Word(f, rsh, mask, junk), [rsh |-> rsh, mask |-> mask, lsh |-> lsh, pos |-> pos, val |-> 5, neg |-> neg])
+
 Init == c = [kind |-> "none"]
 Next == /\ c.kind = "none"
         /\ \/ \E op \in Ops, be \in Bes, k \in 0..(NPairs - 1), t \in 1..Len(ThreadLists) : c' = W(op, be, PairIdx(k + (IF op \in {"sll", "srl", "sra"} THEN 9 ELSE 0)), ThreadLists[t])
@@ -31,6 +63,7 @@ Next == /\ c.kind = "none"
                 /\ (op = "sext" => i0 <= 2 /\ i1 = 0) /\ (op = "zero_byte" => i0 <= 3 /\ i1 = 0) /\ (op = "splice_u8" => i0 <= 3)
                 /\ (op = "splice_u16" => i0 <= 1 /\ i1 <= 1) /\ (op = "get_bit" => i1 = 0)
                 /\ c' = [kind |-> "surgery", op |-> op, be |-> be, i0 |-> i0, i1 |-> i1, ahi |-> Dict[p + 14][1], alo |-> Dict[p + 14][2], bhi |-> Dict[p + 4][1], blo |-> Dict[p + 4][2]]
+           \/ Blind > 0 /\ BlindNext
            \/ \E be \in Bes, k \in 0..1 :
                 c' = [kind |-> "shared", be |-> be, ahi |-> Dict[16 + k][1], alo |-> Dict[16 + k][2], bhi |-> Dict[17][1], blo |-> Dict[17][2] + k,
                       ops |-> <<"add", "sub", "xor", "sll", "sltu", "and", "or", "sra">>, rounds |-> 3]
